@@ -284,5 +284,72 @@ MULT = {
 }
 SPECS["Multiplicity"] = MULT
 
+# ----------------------------------------------------------------------------- metrics/proportion.py
+SRM = "srm"
+SR_REC = Record("sr_cfg", "mk_sr_cfg", {"method": SRM, "correction": BOOL}, prefix="sr_")
+
+
+def _sr_emit(tr):
+    """SampleRatio.analyze: the statements after the aggregates have been read."""
+    from py2coq import Unsupported, fail
+    f = tr.find_def("SampleRatio.analyze")
+    body = [s for s in f.body if not (isinstance(s, _ast.Expr) and isinstance(s.value, _ast.Constant))]
+    src = [_ast.unparse(s) for s in body]
+    want_head = ["aggr = tea_tasting.metrics.aggregate_by_variants(data, aggr_cols=self.aggr_cols, variant=variant)",
+                 "k = aggr[treatment].count()", "n = k + aggr[control].count()"]
+    if src[:3] != want_head:
+        raise Unsupported("SampleRatio.analyze head changed: " + str(src[:3]))
+    if src[3] != "r = self.ratio if isinstance(self.ratio, float | int) else self.ratio[treatment] / self.ratio[control]":
+        raise Unsupported("SampleRatio.analyze ratio selection changed: " + src[3])
+    if not (isinstance(body[4], _ast.Assign) and _ast.unparse(body[4].targets[0]) == "p"):
+        fail(body[4], "expected p = ...")
+    branch = body[5]
+    if not (isinstance(branch, _ast.If) and len(branch.body) == 1
+            and _ast.unparse(branch.body[0]) == "pvalue = scipy.stats.binomtest(k=int(k), n=int(n), p=p).pvalue"):
+        fail(branch, "expected the binomtest branch")
+    ret = body[6]
+    if _ast.unparse(ret) != "return SampleRatioResult(control=n - k, treatment=k, pvalue=pvalue)":
+        raise Unsupported("SampleRatio.analyze result wiring changed: " + _ast.unparse(ret))
+    # module constant
+    thr = [n for n in tr.tree.body if isinstance(n, _ast.Assign) and _ast.unparse(n.targets[0]) == "_MAX_EXACT_THRESHOLD"]
+    if len(thr) != 1 or not isinstance(thr[0].value, _ast.Constant):
+        raise Unsupported("_MAX_EXACT_THRESHOLD")
+    tr.spec["globals"] = {"_MAX_EXACT_THRESHOLD": (f"(nlit {thr[0].value.value})", NUM)}
+    env = {"self": ("rec", "sr_cfg"), "k": NUM, "n": NUM, "r": NUM}
+    p_txt, p_ty = tr.ex(body[4].value, {"r": NUM})
+    cond, cty = tr.ex(branch.test, {"self": ("rec", "sr_cfg"), "n": NUM})
+    if cty != BOOL:
+        fail(branch, "method condition")
+    env2 = {"self": ("rec", "sr_cfg"), "k": NUM, "n": NUM, "p": NUM}
+    norm = tr.block(list(branch.orelse), env2, NUM, lambda e: tr.var("pvalue"))
+    return (
+        "Record sr_result := mk_sr_result { sr_control : num; sr_treatment : num; sr_pvalue : num }.\n"
+        "(* p = r / (1 + r), r the expected treatment/control ratio (scalar ratio, or ratio[treatment] / ratio[control]) *)\n"
+        f"Definition sr_share (v_r : num) : num := {p_txt}.\n"
+        "(* exact binomial test iff ... *)\n"
+        f"Definition sr_use_binom (v_self : sr_cfg) (v_n : num) : bool := {cond}.\n"
+        "(* the normal-approximation branch *)\n"
+        f"Definition sr_norm_pvalue (v_self : sr_cfg) (v_k v_n v_p : num) : num :=\n  {norm}.\n"
+        "(* SampleRatio.analyze after aggregation; binom : n -> k -> p -> pvalue is scipy.stats.binomtest (an oracle) *)\n"
+        "Definition sr_analyze (binom : num -> num -> num -> num) (v_self : sr_cfg) (count_control count_treatment v_r : num) : sr_result :=\n"
+        "  let v_k := count_treatment in let v_n := (v_k + count_control)%num in let v_p := sr_share v_r in\n"
+        "  let v_pvalue := if sr_use_binom v_self v_n then binom v_n v_k v_p else sr_norm_pvalue v_self v_k v_n v_p in\n"
+        "  mk_sr_result (v_n - v_k)%num v_k v_pvalue.\n")
+
+
+PROP = {
+    "source": "metrics/proportion.py",
+    "section": "Variable fam : dist_family num.",
+    "records": {"sr_cfg": SR_REC},
+    "self_types": {"SampleRatio": ("rec", "sr_cfg")},
+    "str_consts": {"binom": ("MBinom", SRM), "auto": ("MAuto", SRM), "norm": ("MNorm", SRM)},
+    "eqb": {SRM: "srm_eqb"},
+    "preamble": lambda tr: ("Inductive srm := MAuto | MBinom | MNorm.\n"
+                            "Definition srm_eqb (a b : srm) : bool := match a, b with MAuto, MAuto | MBinom, MBinom | MNorm, MNorm => true | _, _ => false end.\n"
+                            "Record sr_cfg := mk_sr_cfg { sr_method : srm; sr_correction : bool }.\n\n"),
+    "targets": [{"raw": _sr_emit}],
+}
+SPECS["Proportion"] = PROP
+
 # instance-independent models (over lib/PyVal): (name, translator module, source file)
 PLAIN = [("Utils", "utils2coq", "utils.py"), ("ExperimentPairs", "exp2coq", "experiment.py")]
